@@ -36,7 +36,7 @@ def one(sd):
 if __name__ == '__main__':
     ids = sys.argv[1:]
     with ProcessPoolExecutor(16) as ex:
-        for name, out in ex.map(one, [f"/verif/seeded/benign/{i}" for i in ids]):
+        for name, out in ex.map(one, [(i if i.startswith("/") else f"/verif/seeded/benign/{i}") for i in ids]):
             print('==', name)
             for r in out:
                 print('   ', r[0], '|', r[1], '|', r[2])
